@@ -37,16 +37,16 @@ func c16Word(r *Rand, lo, hi int) string {
 }
 
 func (propC16) Gen(r *Rand) *Plan {
-	nops := r.Range(2, 24)
+	nops := r.Range(2, 24*Scale)
 	var ops []Op
 	var syms []string
 	for i := 0; i < nops; i++ {
 		if len(syms) == 0 || r.Bool(0.4) {
-			s := c16Word(r, 1, 3)
+			s := c16Word(r, 1, 2+Scale)
 			if len(syms) > 0 && r.Bool(0.35) {
 				// extend or share a prefix with an existing symbol
 				base := []rune(syms[r.Intn(len(syms))])
-				if r.Bool(0.5) && len(base) < 3 {
+				if r.Bool(0.5) && len(base) < 2+Scale {
 					s = string(append(append([]rune{}, base...), r.PickRune(c16Alphabet)))
 				} else if len(base) > 1 {
 					s = string(append(append([]rune{}, base[:len(base)-1]...), r.PickRune(c16Alphabet)))
@@ -65,7 +65,7 @@ func (propC16) Gen(r *Rand) *Plan {
 			case 2: // a registered symbol followed by more
 				in = syms[r.Intn(len(syms))] + c16Word(r, 1, 3)
 			default:
-				in = c16Word(r, 1, 5)
+				in = c16Word(r, 1, 5*Scale)
 			}
 			ops = append(ops, Op{Op: "read", S: in})
 		}
